@@ -194,7 +194,7 @@ func RunCheck(prop string, opt CheckOptions) *CheckResult {
 			for _, q := range pfam {
 				cfg.Extra = append(cfg.Extra, ExtraPkg{Dir: filepath.Join(mod, q.ID), Pattern: "./" + q.ID})
 				b, _ := json.Marshal(q.Params)
-				family = append(family, RouteSet{ID: q.ID, Templates: []RouteTemplate{{Path: "required path parameters: " + string(b)}}})
+				family = append(family, RouteSet{ID: q.ID, Templates: []RouteTemplate{{Path: "parameters (in: \"\" = path): " + string(b)}}})
 			}
 			cfg.Extra = append(cfg.Extra, ExtraPkg{Dir: filepath.Join(opt.RepoDir, "uri"), Pattern: "github.com/ogen-go/ogen/uri", Mirror: filepath.Join(opt.VerifDir, "contracts", "uri")})
 		}
@@ -661,8 +661,13 @@ func RunCheck(prop string, opt CheckOptions) *CheckResult {
 			}
 			fam = append(fam, map[string]any{"id": rs.ID, "routes": ts})
 		}
-		cov["program_family"] = map[string]any{"kind": pc.Family, "programs": fam,
-			"note": "bounded over programs: the generator of the current tree was run on each route set; each generated ServeHTTP was verified for all requests against a contract derived from the route set alone"}
+		note := map[string]string{
+			"router":    "bounded over programs: the generator of the current tree was run on each route set; each generated ServeHTTP (and FindPath) was verified for all requests against a contract derived from the route set alone",
+			"security":  "bounded over programs: the generator of the current tree was run on each requirement set / credential set; verified for all inputs against contracts derived from the spec alone: the requirement-check closure of the generated handler (extracted mechanically), the generated per-scheme attach and extract functions, and the attach section of the generated client (extracted mechanically)",
+			"validator": "bounded over programs: the generator of the current tree was run on each object schema; each generated (*T).Validate() was verified for all values against a contract derived from the schema keywords alone",
+			"params":    "bounded over programs: the generator of the current tree was run on each parameter set; verified for all inputs against contracts derived from the declared parameters alone: the generated decodeOp1Params (server), and the URL-building and header/cookie sections of the generated client method (extracted mechanically); which of these functions belong to this property is props.json family_only",
+		}[pc.Family]
+		cov["program_family"] = map[string]any{"kind": pc.Family, "programs": fam, "note": note, "functions_of_this_property": pc.FamilyOnly}
 	}
 	if e != nil && len(e.Warnings) > 0 {
 		w := e.Warnings
